@@ -26,6 +26,7 @@ ASSUMPTIONS = [
 EN_UNITS = ['meV', 'ueV', 'eV', 'J']
 TIME_UNITS = ['us', 'ns', 'ms', 's']
 LEN_UNITS = ['m', 'mm', 'cm', 'km']
+LEN_UNITS_WIDE = ['m', 'mm', 'cm', 'km', 'angstrom', 'nm']
 FLOOR = 1e-11
 _C = None
 
@@ -80,7 +81,8 @@ class Monitors:
                 res = ev.result
                 tof, en = a['tof'], a[en_name]
                 f32_cls = ops.elem_dtype(tof) == sc.DType.float32 and ops.elem_dtype(en) == sc.DType.float32
-                any32 = any(ops.elem_dtype(a[n]) == sc.DType.float32 for n in ('tof', 'L1', 'L2', en_name))
+                # precision class of the result (documented: single iff tof AND energy are single)
+                any32 = f32_cls
                 eps = _eps(any32)
                 S = {n: ops.align(a[n], res).astype(si.LD) * si.factor(ops.elem_unit(a[n]))
                      for n in ('tof', 'L1', 'L2', en_name)}
@@ -155,6 +157,39 @@ def v_of(E):
     return np.sqrt(si.LD(2) * E / mn())
 
 
+def f32_domain_ok(kind, units, L1_u, L2_u, Efix_u, t_u):
+    """All-float32 evaluation is only judged where the quantities any single-precision evaluation of the
+    documented formula has to hold are normal float32 numbers: the inputs, the folded constant of the
+    fixed leg and its quotient with the fixed energy, t0, the scale m L^2/2 of the free leg (in energy x
+    time^2 units), t - t0 and its square, and the result."""
+    ue, ut, ul1, ul2 = units
+    fe, ft = si.factor(sc.Unit(ue)), si.factor(sc.Unit(ut))
+    f1, f2 = si.factor(sc.Unit(ul1)), si.factor(sc.Unit(ul2))
+    m = mn()
+    Lfix_u, ffix, Lfree_u, ffree = (L1_u, f1, L2_u, f2) if kind == 'direct' else (L2_u, f2, L1_u, f1)
+    Lfix_u = np.asarray(Lfix_u, dtype=si.LD)
+    Lfree_u = np.asarray(Lfree_u, dtype=si.LD)
+    E = np.asarray(Efix_u, dtype=si.LD)
+    t = np.asarray(t_u, dtype=si.LD)
+    c_fixed = (m / 2) / fe * (ffix / ft) ** 2
+    ratio = c_fixed / E
+    t0 = (Lfix_u * np.sqrt(ratio)).reshape(-1, 1) if np.ndim(t) == 2 else Lfix_u * np.sqrt(ratio)
+    K = ((m / 2) / fe * (ffree / ft) ** 2) * Lfree_u**2
+    with np.errstate(all='ignore'):
+        delta = np.abs(t - t0)
+        delta = delta[delta > 0]
+        other = (np.max(K) / np.min(delta) ** 2) if delta.size else si.LD(1)
+        other_lo = (np.min(K) / np.max(delta) ** 2) if delta.size else si.LD(1)
+    qs = [c_fixed, ratio, t0, K, Lfree_u**2, Lfix_u, E, t, delta, delta**2, other, other_lo]
+    lo, hi = si.LD('1e-30'), si.LD('1e30')
+    for q in qs:
+        q = np.abs(np.asarray(q, dtype=si.LD)).ravel()
+        q = q[q > 0]
+        if q.size and (np.min(q) < lo or np.max(q) > hi):
+            return False
+    return True
+
+
 def gen(rng, ctx, kind, layout, f32, units):
     """Simulate neutrons; returns kwargs for the kernel and the simulated truth."""
     ue, ut, ul1, ul2 = units
@@ -187,6 +222,11 @@ def gen(rng, ctx, kind, layout, f32, units):
     t_u = np.where(sel < 0.15, t0_u * rng.uniform(0.05, 0.999, size=t_u.shape), t_u)
     t_u = np.where((sel >= 0.15) & (sel < 0.2), t0_u * (1 + 10.0 ** rng.uniform(-6, -2, size=t_u.shape)), t_u)
     ctx.hit('tof below t0')
+    if f32 and not f32_domain_ok(kind, units, L1_u, L2_u, Efix_u, t_u):
+        ctx.count('out of the float32 domain (extreme units): regenerated')
+        return None, None
+    if f32 and (units[2] in ('angstrom', 'nm') or units[3] in ('angstrom', 'nm') or units[0] == 'J' or units[1] == 's'):
+        ctx.hit('float32 with extreme units inside the domain')
     mixed = None
     tof_dt = dt
     if not f32 and rng.random() < 0.12:
@@ -288,7 +328,8 @@ def plan(tier, seed):
 
 def requirements(tier):
     return {'events': {'energy_transfer_direct_from_tof': 100, 'energy_transfer_indirect_from_tof': 100},
-            'forced': ['tof below t0', 'boundary sextuple', 'per-pixel L1'],
+            'forced': ['tof below t0', 'boundary sextuple', 'per-pixel L1',
+                       'float32 with extreme units inside the domain'],
             'counters': {'boundary_points': 500, 'decided:below t0': 200, 'decided:above t0': 2000,
                          'convert_calls': 10}}
 
@@ -308,9 +349,21 @@ def run(shard, ctx):
             kind = 'direct' if i % 2 == 0 else 'indirect'
             layout = LAYOUTS[rng.integers(0, len(LAYOUTS))]
             f32 = rng.random() < 0.3
-            units = (EN_UNITS[rng.integers(0, 4)], TIME_UNITS[rng.integers(0, 2 if f32 else 4)],
-                     LEN_UNITS[rng.integers(0, 4)], LEN_UNITS[rng.integers(0, 4)])
-            kw, sig = gen(rng, ctx, kind, layout, f32, units)
+            kw = None
+            for _attempt in range(20):
+                lens = LEN_UNITS_WIDE if rng.random() < 0.5 else LEN_UNITS
+                units = (EN_UNITS[rng.integers(0, 4)], TIME_UNITS[rng.integers(0, 4)],
+                         lens[rng.integers(0, len(lens))], lens[rng.integers(0, len(lens))])
+                if f32 and _attempt == 0 and rng.random() < 0.3:
+                    # extreme but legitimate combination: SI energy and time, microscopic unit for the free leg
+                    free = ['angstrom', 'nm'][rng.integers(0, 2)]
+                    fixed = ['m', 'cm'][rng.integers(0, 2)]
+                    units = ('J', 's', fixed, free) if kind == 'direct' else ('J', 's', free, fixed)
+                kw, sig = gen(rng, ctx, kind, layout, f32, units)
+                if kw is not None:
+                    break
+            if kw is None:
+                continue
             mon.meta = {'layout': layout, 'units': units, 'f32': f32}
             mon.last_t0 = None
             before = ctx.n_violations
